@@ -95,7 +95,7 @@ pub fn run(rng: &mut R, out: &mut Out) {
     let big: Vec<usize> = if out.tier_thorough {
         vec![2047, 2048, 2049, 4095, 4097, 10000, 65535, 65536, 65537, 100_001]
     } else {
-        vec![1023, 1025, 4097]
+        vec![1023, 1025, 4097, 65535, 65536, 65537, 131073]
     };
     for n in big {
         let leaves: Vec<[u8; 32]> = (0..n).map(|_| gen::arr32(rng)).collect();
